@@ -397,7 +397,48 @@ def registry_harness(which):
     return harness
 
 
+def pointer_size_history_harness(ctx):
+    """the codecs are shared objects (one encoder per field of a class, for the whole process): what they accept depends on the byte order and
+    pointer size OF THE CALL, never on those of an earlier call.  The pointer-size dependent operation (DW_OP_addr), alone and nested in a
+    CFA expression, asked about 8, then 4, then 8 again (and the other way round): each answer is the one its own pointer size demands."""
+    import io
+    from gtirb_rewriting.dwarf import cfi as CFI, expr as EX
+    bo = ["little", "big"][ctx.choose(2, "byteorder")]
+    order = [(8, 4, 8), (4, 8, 4)][ctx.choose(2, "order-of-pointer-sizes")]
+    nested = bool(ctx.choose(2, "nested-in-a-CFA-expression"))
+    bad = []
+
+    def enc(value, ps):
+        obj = CFI.InstDefCFAExpression([EX.OpAddr(value)]) if nested else EX.OpAddr(value)
+        return bytes(obj.encode(bo, ps))
+    for ps in order:
+        top = 1 << (8 * ps)
+        for value, ok in ((0, True), (top - 1, True), (top, False), (1 << 31, True), ((1 << 32) + 5, ps == 8), (-1, False)):
+            try:
+                data = enc(value, ps)
+                if not ok:
+                    bad.append("pointer size %d accepted %#x" % (ps, value))
+                    continue
+                body = data[-ps:]
+                if int.from_bytes(body, bo) != value:
+                    bad.append("pointer size %d: %#x encoded as %s" % (ps, value, data.hex()))
+                cls = CFI.Instruction if nested else EX.Operation
+                back, nread = cls.decode(io.BytesIO(data + b"\x00\x01"), bo, ps)
+                want = CFI.InstDefCFAExpression([EX.OpAddr(value)]) if nested else EX.OpAddr(value)
+                if back != want or nread != len(data):
+                    bad.append("pointer size %d: %#x decodes as %r (%d of %d bytes)" % (ps, value, back, nread, len(data)))
+            except ValueError:
+                if ok:
+                    bad.append("pointer size %d refused %#x" % (ps, value))
+            except Exception as ex:     # noqa
+                bad.append("pointer size %d, %#x: %s instead of ValueError" % (ps, value, type(ex).__name__))
+    ctx.cover("enumerated")
+    ctx.prove("codec/pointer-size-of-THIS-call-decides-what-DW_OP_addr-accepts-and-how-it-is-laid-out", z3.BoolVal(not bad), note="%s, sizes asked in order %s%s: %s" % (
+        bo, order, ", nested" if nested else "", "; ".join(bad[:3])))
+
+
 def jobs(tier="quick", seed=0):
+    yield Job("C14/pointer-size-history", pointer_size_history_harness, kind="E", func="gtirb_rewriting.dwarf._encoders:_UIntPtrEncoder (shared encoder objects keep no state)", expect_cover=("enumerated",))
     for which in ("op", "cfa"):
         base, seen = classes(which)
         yield Job("C14/registry/%s" % which, registry_harness(which), kind="E",
